@@ -166,7 +166,9 @@ where
         Ok(Self {
             reader,
             max_lit: header.max_var_index * 2 + 1,
-            code: (header.input_count + 1) * 2,
+            // `input_count + 1` cannot overflow (it is at most `max_var_index + 1`), doubling it only
+            // wraps when no latch or and gate can follow that would use the code.
+            code: (header.input_count + 1).wrapping_mul(2),
             header,
             _lit_builder: std::marker::PhantomData,
         })
